@@ -11,6 +11,7 @@ CONSTANTS T = 7
           Unaligned = FALSE
           MaxHist = 0
           HistLen = 2
+          CaseWorlds = {}
 INVARIANTS RespIsDirect C42_ExtentsHoldDirectData C42_ExtentsOrdered
 PROPERTIES C42_ResponsesAreDirect
 VIEW View
